@@ -401,7 +401,7 @@ func buildC05(tier string) *core.Plan {
 			c.Outcome("format-as-specified")
 		}}
 	return &core.Plan{
-		Spaces: []core.Space{roundTrip, cliSpace, multiSpace, c05FileFormatSpace()},
+		Spaces: []core.Space{roundTrip, cliSpace, multiSpace, c05FileFormatSpace(), c05EmptyDocSpace()},
 		Rule: "every single-document stream built from 78 look-alike strings (incl. multi-line strings with significant leading/trailing/inner white space) (as root, key, value, list entry, nested), 19 boundary numbers (incl. integral doubles beyond int64), bools and empty containers; all trees up to 3 nodes over a reduced look-alike alphabet (thorough: up to 4 nodes over 16 scalars and 9 keys); every stream of 2-4 documents over an 8-document pool; " +
 			"each in all 6 output formats (TOML: map-rooted only); CLI matrix -f x -o extension x (virtual) input extension x real format",
 		Assumptions: []string{"decode(encode(docs)) is compared by value (2.0 may read back as 2) with bkl's decoder, with a fresh Parser loading the bytes as a file, and with Python json / PyYAML under a YAML 1.2 core-schema resolver / tomllib",
@@ -462,5 +462,60 @@ func c05FileFormatSpace() core.Space {
 			}
 			c.Nontrivial()
 			c.Outcome("each-file-in-its-own-format")
+		}}
+}
+
+// c05EmptyDocSpace: streams holding EMPTY documents are written in every format and read back with
+// the same number of documents; an empty document comes back empty (TOML has no way to say
+// "nothing", so there - and only there - it may come back as the empty map).
+func c05EmptyDocSpace() core.Space {
+	streams := [][]any{{nil}, {map[string]any{"a": 1}, nil, map[string]any{"b": 2}}, {nil, map[string]any{"a": 1}}, {map[string]any{"a": 1}, nil}, {nil, nil}}
+	nf := int64(len(c05Formats))
+	return core.Space{Name: "streams-with-empty-documents", N: int64(len(streams)) * nf,
+		Desc: func(i int64) any { return map[string]any{"docs": streams[i/nf], "format": c05Formats[i%nf]} },
+		Run: func(c *core.Ctx, i int64) {
+			docs, format := streams[i/nf], c05Formats[i%nf]
+			f, err := bkl.GetFormat(format)
+			if err != nil {
+				return
+			}
+			c.Eval()
+			c.Trans(2)
+			wit := fmt.Sprintf("empty documents, %s: %s", format, core.Canon(docs))
+			b, err := f.MarshalStream(core.Clone(docs).([]any))
+			c.Validated()
+			c.Nontrivial()
+			if err != nil {
+				c.Outcome("ENCODE-FAILS")
+				c.Fail("round-trip-bkl", "encode-fails", wit, errStr(err))
+				return
+			}
+			back, err := f.UnmarshalStream(b)
+			if err != nil {
+				c.Outcome("DECODE-FAILS")
+				c.Fail("round-trip-bkl", "decode-fails", wit, map[string]any{"bytes": string(b), "error": errStr(err)})
+				return
+			}
+			ok := len(back) == len(docs)
+			for k := 0; ok && k < len(docs); k++ {
+				got := c05NormDecoded(back[k])
+				if docs[k] == nil {
+					if m, isMap := got.(map[string]any); got != nil && !(c05Family(format) == "toml" && isMap && len(m) == 0) {
+						ok = false
+					}
+				} else if !core.EqualLoose(got, docs[k]) {
+					ok = false
+				}
+			}
+			// a stream of nothing but empty documents may also be written as no bytes at all and read as no documents
+			if !ok && len(b) == 0 {
+				ok = true
+			}
+			if !ok {
+				c.Outcome("ROUND-TRIP-DIFFERS")
+				c.Fail("round-trip-bkl", "values-differ", wit, map[string]any{"bytes": string(b), "got": back})
+				return
+			}
+			c.Outcome("round-trip-ok")
 		}}
 }
